@@ -50,6 +50,10 @@ pub fn expected(d: &Doc) -> Option<Vec<String>> {
         }
         var_count = big(&h[0]);
         clause_count = big(&h[1]);
+        // a variable count beyond the literal type cannot be honoured and is refused ("exceeds the supported variable count")
+        if var_count > lit_max(d.kind) {
+            return None;
+        }
         if d.kind == "wcnf" {
             if big(&h[2]) > u64::MAX as i128 {
                 return None;
@@ -230,15 +234,26 @@ pub fn base_docs(kind: &'static str) -> Vec<Doc> {
             _ => vec![s(v), s(c), s("4")],
         })
     };
+    // third header field zero (top weight / group count unspecified)
+    let h0 = |v: &str, c: &str| -> Option<Vec<String>> {
+        Some(match kind {
+            "cnf" => vec![s(v), s(c)],
+            _ => vec![s(v), s(c), s("0")],
+        })
+    };
     vec![
         Doc { kind, header: h("5", "3"), clauses: vec![cl(pre("100", "1"), &["1", "-2", "3"]), cl(pre("7", "4"), &["-5"]), cl(pre("1", "0"), &["4", "-1", "2", "5"])] },
         Doc { kind, header: None, clauses: vec![cl(pre("3", "2"), &["12", "-34"]), cl(pre("9", "1"), &["56", "-7", "8"])] },
         Doc { kind, header: h("0", "0"), clauses: vec![cl(pre("1", "9"), &["1999", "-2000"])] },
         Doc { kind, header: h("3", "2"), clauses: vec![cl(pre("5", "2"), &[]), cl(pre("6", "3"), &["3"])] },
+        // a count of zero means unspecified, each on its own
+        Doc { kind, header: h("0", "2"), clauses: vec![cl(pre("5", "3"), &["77", "-78"]), cl(pre("6", "4"), &["3"])] },
+        Doc { kind, header: h("9", "0"), clauses: vec![cl(pre("5", "1"), &["9", "-8"]), cl(pre("6", "2"), &["3"]), cl(pre("1", "4"), &["-1"])] },
+        Doc { kind, header: h0("4", "1"), clauses: vec![cl(pre("5", "7"), &["4", "-1"])] },
     ]
 }
 const NUMBERS: &[&str] = &[
-    "1", "5", "6", "127", "128", "32767", "32768", "65536", "2147483647", "2147483648", "4294967296", "4294967297", "9223372036854775807", "9223372036854775808", "18446744073709551615",
+    "0", "1", "5", "6", "127", "128", "32767", "32768", "65536", "2147483647", "2147483648", "4294967296", "4294967297", "9223372036854775807", "9223372036854775808", "18446744073709551615",
     "18446744073709551616", "18446744073709551617", "9999999999999999999", "99999999999999999999", "36893488147419103233", "-5", "-6", "-32767", "-32768", "-32769", "-2147483647", "-2147483648",
     "-2147483649", "-9223372036854775807", "-9223372036854775808", "-9223372036854775809", "-18446744073709551617", "0000000000000000000001", "-0000000000000000000002", "00000129",
 ];
@@ -327,6 +342,9 @@ pub fn suite(kind: &'static str, prop: &str, tier: &str, seed: u64) -> Report {
             for pos in 0..positions {
                 for (ni, num) in NUMBERS.iter().enumerate() {
                     let mut d2 = d.clone();
+                    if *num == "0" && is_literal_position(d, pos) {
+                        continue; // a 0 among the literals is the terminator, not a number of the clause
+                    }
                     set_number(&mut d2, pos, num);
                     let want = expected(&d2);
                     for (li, l) in [c.clone(), Layout { split: 2, indent: " ", ..c.clone() }].iter().enumerate() {
@@ -353,6 +371,45 @@ pub fn suite(kind: &'static str, prop: &str, tier: &str, seed: u64) -> Report {
                                 }
                                 _ => {}
                             }
+                        }
+                    }
+                }
+            }
+        }
+    }
+    if all || prop == "C03" {
+        // values of the domain (every number position x the number pool, those that respect the limits) written by the real writers and parsed back
+        for (di, d) in docs.iter().enumerate() {
+            let positions = render(d, &c, None).tokens.len();
+            for pos in 0..=positions {
+                for (ni, num) in NUMBERS.iter().enumerate() {
+                    let mut d2 = d.clone();
+                    if pos < positions {
+                        if *num == "0" && is_literal_position(d, pos) {
+                            continue;
+                        }
+                        set_number(&mut d2, pos, num);
+                    } else if ni > 0 {
+                        break; // pos == positions: the unmodified document, once
+                    }
+                    let want = match expected(&d2) {
+                        Some(w) => w,
+                        None => continue,
+                    };
+                    let bytes = match write_doc(&d2) {
+                        Some(b) => b,
+                        None => continue,
+                    };
+                    rep.inputs += 1;
+                    rep.nontrivial += 1;
+                    for &sc in scheds.iter() {
+                        let o = run(f, &bytes, sc);
+                        rep.runs += 1;
+                        let got = clause_items(&o.items, d2.header.is_some());
+                        if o.end != End::Clean || got != want {
+                            let mut a = vec![s("c03"), di.to_string(), pos.to_string(), ni.to_string()];
+                            a.extend(sc.args());
+                            rep.fail("C03 parse(write(v)) == v for every value that respects its own header", show(&bytes), a, format!("written by the real writers as above; expected clauses {:?} and a clean end, got {:?} {:?}", want, got, o.end));
                         }
                     }
                 }
@@ -500,6 +557,71 @@ pub fn satlog_suite(prop: &str, tier: &str, seed: u64) -> Report {
     rep
 }
 
+fn is_literal_position(d: &Doc, pos: usize) -> bool {
+    let mut k = d.header.as_ref().map(|h| h.len()).unwrap_or(0);
+    for c in &d.clauses {
+        if c.prefix.is_some() {
+            if k == pos {
+                return false;
+            }
+            k += 1;
+        }
+        for _ in &c.lits {
+            if k == pos {
+                return true;
+            }
+            k += 1;
+        }
+    }
+    false
+}
+/// the document as the real writers render it (None when a number does not fit the value types of the writers)
+fn write_doc(d: &Doc) -> Option<Vec<u8>> {
+    use crate::fmt::to_bytes;
+    let h: Option<Vec<usize>> = match &d.header {
+        Some(h) => Some(h.iter().map(|x| x.parse::<usize>().ok()).collect::<Option<Vec<_>>>()?),
+        None => None,
+    };
+    match d.kind {
+        "cnf" => {
+            let cs: Vec<Vec<i32>> = d.clauses.iter().map(|c| c.lits.iter().map(|l| l.parse::<i32>().ok()).collect::<Option<Vec<_>>>()).collect::<Option<Vec<_>>>()?;
+            Some(to_bytes(|w| {
+                if let Some(h) = &h {
+                    flussab_cnf::cnf::write_header(w, flussab_cnf::cnf::Header { var_count: h[0], clause_count: h[1] });
+                }
+                for c in &cs {
+                    flussab_cnf::cnf::write_clause(w, c);
+                }
+            }))
+        }
+        "wcnf" => {
+            let top = match &d.header {
+                Some(hh) => Some(hh[2].parse::<u64>().ok()?),
+                None => None,
+            };
+            let cs: Vec<(u64, Vec<isize>)> = d.clauses.iter().map(|c| Some((c.prefix.as_ref()?.parse::<u64>().ok()?, c.lits.iter().map(|l| l.parse::<isize>().ok()).collect::<Option<Vec<_>>>()?))).collect::<Option<Vec<_>>>()?;
+            Some(to_bytes(|w| {
+                if let Some(h) = &h {
+                    flussab_cnf::wcnf::write_header(w, flussab_cnf::wcnf::Header { var_count: h[0], clause_count: h[1], top_weight: top.unwrap() });
+                }
+                for c in &cs {
+                    flussab_cnf::wcnf::write_clause(w, c.0, &c.1);
+                }
+            }))
+        }
+        _ => {
+            let cs: Vec<(usize, Vec<i16>)> = d.clauses.iter().map(|c| Some((c.prefix.as_ref()?.parse::<usize>().ok()?, c.lits.iter().map(|l| l.parse::<i16>().ok()).collect::<Option<Vec<_>>>()?))).collect::<Option<Vec<_>>>()?;
+            Some(to_bytes(|w| {
+                if let Some(h) = &h {
+                    flussab_cnf::gcnf::write_header(w, flussab_cnf::gcnf::Header { var_count: h[0], clause_count: h[1], group_count: h[2] });
+                }
+                for c in &cs {
+                    flussab_cnf::gcnf::write_clause(w, c.0, &c.1);
+                }
+            }))
+        }
+    }
+}
 fn set_number(d: &mut Doc, pos: usize, num: &str) {
     let mut k = 0;
     if let Some(h) = d.header.as_mut() {
